@@ -16,6 +16,9 @@ type C16Case struct {
 	// SockDir: name of a subdirectory (created in the sandbox) handed to the plugin as PLUGIN_UNIX_SOCKET_DIR;
 	// names with characters that are special somewhere (%, spaces, quotes, unicode)
 	SockDir string `json:"sockDir,omitempty"`
+	// Chatter: plugin code keeps printing lines to os.Stdout from 250 ms after the handshake line on, while
+	// no host connects: after the handshake the plugin's stdout belongs to the stdio stream, not the real stdout
+	Chatter bool `json:"chatter,omitempty"`
 }
 
 type C16Obs struct {
